@@ -8,6 +8,7 @@ import (
 	metav1 "k8s.io/apimachinery/pkg/apis/meta/v1"
 	"k8s.io/apimachinery/pkg/util/intstr"
 
+	datadoghqv1alpha1 "github.com/DataDog/extendeddaemonset/api/v1alpha1"
 	"github.com/DataDog/extendeddaemonset/zzverif/fakeapi"
 	"github.com/DataDog/extendeddaemonset/zzverif/nondet"
 )
@@ -188,4 +189,81 @@ func ZZ_C03_percentLarge() {
 	nondet.Observe("nDelete", len(res.PodsToDelete))
 	nondet.Reach("C03.large.exact-multiple", pct*n%100 == 0 && pct < 100)
 	nondet.Reach("C03.large.rounds-up", pct*n%100 != 0)
+}
+
+// ZZ_C03_migrationMix: "This also covers pods adopted from the DaemonSet named by the old-daemonset
+// migration annotation".  The ExtendedDaemonSet carries the migration annotation; every outdated
+// pod is either a pod of a previous replica set or a pod still owned by the old DaemonSet (no
+// template hash, an owner reference to it), node by node; three nodes over {no pod, up-to-date
+// available, outdated available, outdated unavailable}.  The same budget applies, and pods that
+// are already unavailable go first whoever owns them.
+func ZZ_C03_migrationMix() {
+	const n = 3
+	ds := zzDaemonset(map[string]string{datadoghqv1alpha1.ExtendedDaemonSetOldDaemonsetAnnotationKey: "legacy"})
+	ds.Spec.Strategy.RollingUpdate.MaxUnavailable = zzIntOrString("maxUnavailable", n)
+	rs := zzReplicaSet()
+	cats := make([]int, n)
+	adopted := make([]bool, n)
+	for i := range cats {
+		switch nondet.String("cat"+strconv.Itoa(i), "none", "current", "outdated-available", "outdated-unavailable") {
+		case "none":
+			cats[i] = zzNoPod
+		case "current":
+			cats[i] = zzUpToDateAvailable
+		case "outdated-available":
+			cats[i] = zzOutdatedAvailable
+		default:
+			cats[i] = zzOutdatedUnavailable
+		}
+		if cats[i] == zzOutdatedAvailable || cats[i] == zzOutdatedUnavailable {
+			adopted[i] = nondet.Bool("adopted" + strconv.Itoa(i))
+		}
+	}
+	params, items := zzParams(ds, rs, cats)
+	ctrl := true
+	for i, ni := range items {
+		if !adopted[i] {
+			continue
+		}
+		p := params.PodByNodeName[ni]
+		p.Labels = map[string]string{"app": "agent"}
+		p.Annotations = map[string]string{}
+		p.OwnerReferences = []metav1.OwnerReference{{APIVersion: "apps/v1", Kind: "DaemonSet", Name: "legacy", Controller: &ctrl}}
+	}
+	res, err := ManageDeployment(fakeapi.New(), ds, params, metav1.Now())
+	nondet.Assert("C03.mix.noerror", err == nil)
+	if err != nil {
+		return
+	}
+	maxUnavailable := int(ds.Spec.Strategy.RollingUpdate.MaxUnavailable.IntVal)
+	withoutAvailable := 0
+	for _, c := range cats {
+		if c != zzUpToDateAvailable && c != zzOutdatedAvailable {
+			withoutAvailable++
+		}
+	}
+	budget := nondet.IteInt(maxUnavailable-withoutAvailable >= 0, maxUnavailable-withoutAvailable, 0)
+	availableDeleted, adoptedDeleted := 0, 0
+	for _, ni := range res.PodsToDelete {
+		idx := zzIndexOf(items, ni)
+		nondet.Assert("C03.mix.only-outdated", idx >= 0 && (cats[idx] == zzOutdatedAvailable || cats[idx] == zzOutdatedUnavailable))
+		if idx >= 0 && cats[idx] == zzOutdatedAvailable {
+			availableDeleted++
+		}
+		if idx >= 0 && adopted[idx] {
+			adoptedDeleted++
+		}
+	}
+	nondet.Assert("C03.mix.budget", availableDeleted <= budget)
+	nondet.Assert("C03.mix.total", len(res.PodsToDelete) <= maxUnavailable)
+	if availableDeleted > 0 {
+		for i, c := range cats {
+			if c == zzOutdatedUnavailable {
+				nondet.Assert("C03.mix.unavailable-first", zzContainsNode(res.PodsToDelete, items[i]))
+			}
+		}
+	}
+	nondet.Observe("nDelete", len(res.PodsToDelete))
+	nondet.Reach("C03.mix.adopted-replaced", adoptedDeleted >= 1)
+	nondet.Reach("C03.mix.adopted-available-waits", availableDeleted == 0 && len(res.PodsToDelete) >= 1 && adopted[0] && cats[0] == zzOutdatedAvailable)
 }
